@@ -88,7 +88,7 @@ def run_case(case):
                 continue
             rt = max(1e-9, 1e-13 * amp)
         fe = ref.objective()
-        if not C.finite([f, fe]):
+        if not C.finite([f, fe]) or not C.phys_ok(ph):
             res["counters"]["discarded_points"] = res["counters"].get("discarded_points", 0) + 1
             continue
         res["evals"] += 1
